@@ -90,6 +90,7 @@ class World:
         self.jitter = jitter
         self.rng = rng
         self.q = {"a": queue.Queue(), "b": queue.Queue()}
+        self.hold_b = {}  # transmission index of "b" -> seconds to hold it back on the line (None = it never arrives)
         self.stop = False
         self.threads = []
         if pumped:
@@ -113,6 +114,15 @@ class World:
                 self.ci += 1
                 pieces.append(data[i:i + n])
                 i += n
+        if end.name == "b" and idx in self.hold_b:
+            delay = self.hold_b[idx]
+            if delay is not None:
+                def later(peer=end.peer, pieces=pieces, delay=delay):
+                    time.sleep(delay)
+                    for pc in pieces:
+                        peer.on_data({"source": peer, "data": pc})
+                threading.Thread(target=later, daemon=True).start()
+            return
         if self.pumped:
             for pc in pieces:
                 self.q[end.name].put((end.peer, pc))
@@ -151,10 +161,10 @@ class Fn:
 class Pair:
     """host (a-side or b-side as chosen per send) and equipment joined by a World"""
 
-    def __init__(self, rng, chunks, pumped, jitter):
+    def __init__(self, rng, chunks, pumped, jitter, t3=45):
         self.world = World(rng, chunks, pumped, jitter)
-        self.host = SecsIProtocol(S(port="H", device_type=secsgem.common.DeviceType.HOST, device_id=rng.choice([0, 1, 32767])))
-        self.equip = SecsIProtocol(S(port="E", device_type=secsgem.common.DeviceType.EQUIPMENT, device_id=rng.choice([0, 5, 32767])))
+        self.host = SecsIProtocol(S(port="H", device_type=secsgem.common.DeviceType.HOST, device_id=rng.choice([0, 1, 32767]), t3=t3))
+        self.equip = SecsIProtocol(S(port="E", device_type=secsgem.common.DeviceType.EQUIPMENT, device_id=rng.choice([0, 5, 32767]), t3=t3))
         self.ch, self.ce = self.host._connection, self.equip._connection
         self.ch.peer, self.ce.peer = self.ce, self.ch
         self.ch.world = self.ce.world = self.world
@@ -310,6 +320,143 @@ def run_case(cx, case):
         pair.close()
 
 
+def run_slow_answer(cx, case):
+    """T3 is short and the peer's ACK/NAK for the block is held back on the line beyond T3 (or never arrives); the block may be corrupted.
+    Oracle: the send call must not report success for a block that was not acknowledged with ACK."""
+    res, rng = cx.res, cx.rng
+    pair = Pair(rng.fork("slow"), case["chunks"], False, 0, t3=case["t3"])
+    try:
+        direction = case["dir"]
+        sender, skey, rkey = (pair.host, "H", "E") if direction == "H2E" else (pair.equip, "E", "H")
+        a_end = pair.ch if direction == "H2E" else pair.ce
+        a_end.name, a_end.peer.name = "a", "b"
+        body = hlib.Rng(case["body_seed"]).bytes(case["body_len"])
+        fn = Fn(case["stream"], case["function"], False, body)
+        sender._system_counter = case["system"] - 1
+        fault = case.get("fault")
+        if fault is not None:
+            pair.world.fault = ("a", 1, fault[1], fault[2])
+        pair.world.hold_b = {1: case["hold"]}  # b's transmissions: 0 = EOT, 1 = ACK/NAK of the (only) block
+        result = {}
+
+        def send():
+            try:
+                result["r"] = sender.send_stream_function(fn)
+            except Exception as exc:  # noqa: BLE001
+                result["exc"] = exc
+
+        t = threading.Thread(target=send, daemon=True)
+        t0 = time.time()
+        t.start()
+        t.join(case["t3"] + (case["hold"] or 0) + 1.0)
+        took = time.time() - t0
+        finished = not t.is_alive()
+        time.sleep(0.05)
+        with pair.world.lock:
+            transcript = list(pair.world.transcript)
+        answered = [d for (n, d) in transcript if n == "b"][1:2]
+        acked = answered == [bytes([ACK])] and case["hold"] is not None
+        r = result.get("r")
+        small = dict(case, answer=answered[0].hex() if answered else None, returned=("blocked" if not finished else r), after_s=round(took, 2))
+        res.count(("slow", direction, case["body_len"], case["hold"], fault, case["t3"]), sample=small if case.get("sample") else None)
+        res.bump("slow_answer", f"hold={case['hold']} fault={'yes' if fault else 'no'} -> {'blocked' if not finished else r}")
+        if "exc" in result:
+            res.violate("c17-exception", "the send call raised", small, None, repr(result["exc"]))
+        if finished and r is True and not acked:
+            res.violate("c17-unacked-success", "the send call reported success for a block that was not acknowledged with ACK "
+                        + ("(it was answered with NAK after T3)" if answered == [bytes([NAK])] else "(its answer never arrived)"), small, "False / no return", True)
+        if finished and r is True and acked and len(pair.got[rkey]) != 1:
+            res.violate("c17-not-delivered-intact", "send reported success but the peer did not receive the message", small)
+        if pair.got[rkey] and answered != [bytes([ACK])]:
+            res.violate("c17-bad-delivered", "a message was delivered although the receiver did not accept its block", small)
+    finally:
+        pair.close()
+
+
+def run_concurrent(cx, case):
+    """two application threads send multi-block messages on ONE endpoint at the same time: their blocks alternate on the line.
+    Oracle: each message whose send returned True arrives exactly once, intact.  Model side: C16's reassembly (driver `secsi reasm`)."""
+    res, rng = cx.res, cx.rng
+    pair = Pair(rng.fork("conc"), case["chunks"], case["pumped"], 0)
+    try:
+        direction = case["dir"]
+        sender, skey, rkey = (pair.host, "H", "E") if direction == "H2E" else (pair.equip, "E", "H")
+        a_end = pair.ch if direction == "H2E" else pair.ce
+        a_end.name, a_end.peer.name = "a", "b"
+        sender._system_counter = case["system"] - 1
+        bodies = [hlib.Rng(case["body_seed"] + i).bytes(n) for i, n in enumerate(case["body_lens"])]
+        fns = [Fn(7, 2 * i + 1, False, b) for i, b in enumerate(bodies)]
+        results = {}
+        barrier = threading.Barrier(len(fns))
+
+        def send(i):
+            barrier.wait(2.0)
+            try:
+                results[i] = sender.send_stream_function(fns[i])
+            except Exception as exc:  # noqa: BLE001
+                results[i] = exc
+
+        threads = [threading.Thread(target=send, args=(i,), daemon=True) for i in range(len(fns))]
+        for t in threads:
+            t.start()
+        for t in threads:
+            t.join(8.0)
+        hung = [i for i, t in enumerate(threads) if t.is_alive()]
+        limit = time.time() + 1.0
+        while time.time() < limit and len(pair.got[rkey]) < len(fns):
+            time.sleep(0.003)
+        time.sleep(0.01)
+        with pair.world.lock:
+            transcript = list(pair.world.transcript)
+        got = list(pair.got[rkey])
+        line_blocks = []
+        for (n, d) in transcript:
+            if n == "a" and len(d) > 1:
+                try:
+                    blk = SecsIBlock.decode(d)
+                except Exception:  # noqa: BLE001
+                    blk = None
+                if blk is not None:
+                    line_blocks.append(blk)
+        order = [(b.header.function, b.header.block) for b in line_blocks]
+        funcs = [f for (f, _n) in order]
+        interleaved = any(funcs[i] != funcs[i + 1] and funcs[i] in funcs[i + 2:] for i in range(len(funcs) - 2))
+        small = dict(case, line_order=order, interleaved=interleaved, results=[repr(results.get(i)) for i in range(len(fns))])
+        res.count(("concurrent", direction, tuple(case["body_lens"]), tuple(order)), sample=small if interleaved and case.get("sample") else None)
+        res.bump("concurrent_senders", "blocks interleaved on the line" if interleaved else "not interleaved")
+        if hung:
+            res.violate("c17-wedged", "concurrent send calls did not return on a perfect line", small, None, hung)
+            return interleaved
+        for i, fn in enumerate(fns):
+            r = results.get(i)
+            if isinstance(r, Exception):
+                res.violate("c17-exception", "the send call raised", small, None, repr(r))
+            elif r is True:
+                mine = [m for m in got if m.header.function == fn.function]
+                if len(mine) != 1 or bytes(mine[0].data) != bodies[i] or mine[0].header.stream != 7:
+                    res.violate("c17-not-delivered-intact", "two concurrent senders: a message whose send reported success did not arrive exactly once, intact",
+                                small, {"function": fn.function, "len": len(bodies[i])}, [(m.header.function, len(m.data)) for m in got])
+            else:
+                res.violate("c17-send-failed", "the send call reported failure on a perfect line", small, True, r)
+        # model: C16's reassembly of the blocks in line order
+        if cx.drv.available and line_blocks:
+            line = "secsi reasm " + " ".join(show_block(b) for b in line_blocks)
+            impl = "ok " + ";".join(show_block_hdr(m.header) + " " + hexs(bytes(m.data)) + " n=" + str(len(m.blocks)) for m in got) + " | pending="
+            ans = hlib.strip_branch(cx.drv.run([line])[0])
+            res.traces_validated += 1
+            res.driver_used = True
+            if ans != impl:
+                res.disagree("concurrent senders: messages delivered vs Model.SecsI.reassemble (C16) of the blocks in line order",
+                             {"case": {k: v for k, v in small.items() if k != "results"}}, ans[:600], impl[:600])
+        return interleaved
+    finally:
+        pair.close()
+
+
+def show_block_hdr(h) -> str:
+    return " ".join(str(int(getattr(h, f))) for f in FIELDS)
+
+
 class Cx:
     def __init__(self, a):
         self.a = a
@@ -347,7 +494,12 @@ def main():
         body = json.load(open(a.replay))
         for v in body.get("violations", []):
             c = v.get("case")
-            if isinstance(c, dict) and "dir" in c:
+            if isinstance(c, dict) and c.get("part") == "concurrent":
+                for _ in range(5):
+                    run_concurrent(cx, {k: v for k, v in c.items() if k not in ("line_order", "interleaved", "results")})
+            elif isinstance(c, dict) and c.get("part") == "slow-answer":
+                run_slow_answer(cx, {k: v for k, v in c.items() if k not in ("answer", "returned", "after_s")})
+            elif isinstance(c, dict) and "dir" in c:
                 c = dict(c)
                 c.pop("blocks", None)
                 run_case(cx, c)
@@ -383,6 +535,24 @@ def main():
             c = gen_case(rng, n)
             c["fault"] = (j, pos, rng.below(256))
             run_case(cx, c)
+    if not a.replay:
+        # concurrent senders on one endpoint (blocks of two or three multi-block messages alternate on the line)
+        seen = 0
+        for k in range(12 if cx.big else 5):
+            lens = [rng.choice([300, 330, 489, 600]) for _ in range(2 if k % 3 else 3)]
+            c = {"part": "concurrent", "dir": rng.choice(["H2E", "E2H"]), "body_lens": lens, "body_seed": rng.below(2 ** 31),
+                 "system": rng.choice([17, 2 ** 32 - 1, rng.range(1, 2 ** 32 - 4)]), "chunks": rng.choice([[1000], [7], [100, 1, 1, 1]]),
+                 "pumped": bool(rng.below(2)), "sample": seen == 0}
+            seen += 1 if run_concurrent(cx, c) else 0
+        if seen == 0:
+            res.notes.append("concurrent senders: the blocks never interleaved on the line in this run")
+        # short T3, the peer's answer held back beyond it
+        for k, (hold, fault) in enumerate([(0.5, True), (0.5, False), (None, True), (None, False)] + ([(0.8, True), (0.3, True)] if cx.big else [])):
+            c = gen_case(rng, rng.choice([0, 3, 100]))
+            c.update(part="slow-answer", t3=0.2, hold=hold, fault=(0, rng.range(1, 12), rng.below(256)) if fault else None, sample=k < 2)
+            if fault:
+                c["fault"] = (0, c["fault"][1], c["fault"][2])
+            run_slow_answer(cx, c)
     if cx.lines and cx.drv.available:
         res.driver_used = True
         outs = cx.drv.run(cx.lines)
